@@ -272,6 +272,9 @@ func c13Expr(r *rng, depth int) string {
 		return pick(r, []string{"'q'", "\"}\"", "'{'", "'%}'", "'a\\n'", "''", "'\\\\'"})
 	case 5:
 		// `v` is ONE array object of the prelude: several holes of a template may show the same container
+		if r.chance(1, 2) {
+			return pick(r, []string{"[1,2]", "[x, 'k']", "{'k': 1}", "v", "v", "[v, 0]", "[v, v]", "v"})
+		}
 		return pick(r, []string{"[1,2]", "[x, 'k']", "null", "1.5", "{'k': 1}", "true", "v", "v", "[v, 0]", "[v, v]",
 			// every value type must show in a hole exactly as its own text form: floats of large and small magnitude, boundary ints
 			"1000000.0", "0.00001", "123456789.25", "2.5 * 1000000", "1.0 / 3", "0.000001 * 0.001", "1e3", "100000000000000000000.0", "[1000000.0, 0.00001]",
